@@ -2,6 +2,7 @@
 from ..run import Result
 from . import dtlib
 from .common import run_items
+from .grids import stable_hash
 from .c03 import ASSUME, sizes
 
 
@@ -11,9 +12,9 @@ def configs(ctx):
     szs = sizes(ctx)
     for (b, q) in pairs:
         for i, (H, W) in enumerate(szs):
-            if ctx.quick and (hash((b, q, 'i')) + i) % 5 and (b, q) != ('near_sym_a', 'qshift_a'):
+            if ctx.quick and (stable_hash(b, q, 'i') + i) % 5 and (b, q) != ('near_sym_a', 'qshift_a'):
                 continue
-            if not ctx.quick and (hash((b, q, 'ti')) + i) % 3 and (b, q) != ('near_sym_a', 'qshift_a'):
+            if not ctx.quick and (stable_hash(b, q, 'ti') + i) % 3 and (b, q) != ('near_sym_a', 'qshift_a'):
                 continue
             long_f = q in ('qshift_c', 'qshift_d') or b == 'near_sym_b'
             J = 2 if (long_f or ctx.quick) else 3
